@@ -263,6 +263,29 @@ theorem redundant_set_dropped_views_differ :
     ((convE true [] [⟨50, true⟩, ⟨1, false⟩] [] [tA, tBfault, tA]).map (fun o => o.outCalls))
       = [[(50, "A"), (1, "A")], [(50, "B"), (1, "B")], [(50, "A"), (1, "B")]] := by decide
 
+/-- `every_call_checked_v1` (generation options per call, `convV1P`): whatever options earlier calls of the conversation
+    had, a call utters only the refusal, the internal-error text, or its LLM text after ALL output rails that ITS
+    options enable (all configured ones for a call without options) ran on it in order, in the final form. -/
+theorem every_call_checked_v1 (cfg : Cfg) (hi : WF cfg .input) (ho : WF cfg .output) :
+    ∀ (cs : List (CallOpts × Turn)) (h : HistV1), h.skip = false →
+      ∀ p ∈ List.zip cs (convV1P cfg h cs), ∀ x, Step.utter x ∈ p.2.1 →
+        x = refusal ∨ x = internalError ∨
+          (railCalls .output p.2.1 = gate p.1.2.vout (if p.1.1.output then cfg.outRails else []) p.1.2.bot
+            ∧ (gate p.1.2.vout (if p.1.1.output then cfg.outRails else []) p.1.2.bot).map Prod.fst = (if p.1.1.output then cfg.outRails else [])
+            ∧ x = gateText p.1.2.vout (if p.1.1.output then cfg.outRails else []) p.1.2.bot)
+  | [], _, _ => by simp [convV1P]
+  | (o, t) :: cs, h, hs => by
+    intro p hp x hx
+    simp only [convV1P, List.zip_cons_cons, List.mem_cons] at hp
+    have hwi : WF (callCfg cfg o) .input := fun he r => hi he r
+    have hwo : WF (callCfg cfg o) .output := fun he r => ho he r
+    rcases hp with rfl | hp
+    · rcases output_all_rails_v1 (callCfg cfg o) h t hwi hwo hs x hx with h1 | h1 | ⟨a, b, _, d⟩
+      · exact Or.inl h1
+      · exact Or.inr (Or.inl h1)
+      · exact Or.inr (Or.inr ⟨a, b, d⟩)
+    · exact every_call_checked_v1 cfg hi ho cs _ (turnV1_skip (callCfg cfg o) h t hs) p hp x hx
+
 end TwoContexts
 
 /-! ### Colang 2.x (guardrails.co) -/
